@@ -15,6 +15,7 @@ import (
 	"strconv"
 	"strings"
 	"sync"
+	"sync/atomic"
 	"time"
 
 	"verifhx/puppet"
@@ -201,8 +202,134 @@ func onewayMain(args []string) {
 	}
 	close(ch)
 	wg.Wait()
-	sum.Cases = len(cases)
+	extra := 0
+	if cf.replay == "" {
+		n := 300
+		if cf.tier == "thorough" {
+			n = 6000
+		}
+		extra = cancelAfterReturn(rand.New(rand.NewSource(cf.seed+77)), n, sum)
+	}
+	sum.Cases = len(cases) + extra
 	sum.finish(start, cf.out)
+}
+
+// cancelAfterReturn: send-waiting one-way calls whose context is cancelled the moment the call has returned
+// (`ctx, cancel := …; node.Unicast(ctx, m); cancel()`), back to back, against healthy nodes.  The context did not
+// end while the call was in progress, so every message is delivered exactly once at every targeted node, and no
+// call waits.
+func cancelAfterReturn(r *rand.Rand, n int, sum *sumT) int {
+	sh, err := newShard(3)
+	if err != nil {
+		fatal(err)
+	}
+	defer func() { go sh.close() }()
+	var mu sync.Mutex
+	got := map[string]int{}
+	sh.cl.D.KeepLog = false
+	sh.cl.D.Default = func(server int, method, val string) *puppet.Script {
+		mu.Lock()
+		got[fmt.Sprint(server+1, "/", puppet.Token(val))]++
+		mu.Unlock()
+		s := puppet.NewScript()
+		s.Action = puppet.Reply
+		s.Release = "early"
+		return s
+	}
+	type sent struct {
+		tok   string
+		nodes []uint32
+	}
+	var all []sent
+	var progress int64
+	finished := make(chan struct{})
+	go func() {
+		// the calls are made back to back on this goroutine, and each context is cancelled by the very next
+		// statement after the call: the window between the end of SendMsg and the first scheduling of the
+		// request's watcher goroutine is what this workload aims at
+		defer close(finished)
+		defer func() { recover() }()
+		for i := 0; i < n; i++ {
+			tok := fmt.Sprintf("car%d", i)
+			req := &dev.Request{Value: tok + "|0|x"}
+			ctx, cancel := context.WithCancel(context.Background())
+			var nodes []uint32
+			if r.Intn(2) == 0 {
+				nodes = []uint32{1, 2, 3}
+				sh.all.Multicast(ctx, req)
+				cancel()
+			} else {
+				nodes = []uint32{uint32(1 + r.Intn(3))}
+				nd := sh.node(nodes[0])
+				nd.Unicast(ctx, req)
+				cancel()
+			}
+			mu.Lock()
+			all = append(all, sent{tok, nodes})
+			mu.Unlock()
+			atomic.StoreInt64(&progress, int64(i+1))
+			if r.Intn(4) == 0 {
+				time.Sleep(time.Duration(r.Intn(300)) * time.Microsecond)
+			}
+		}
+	}()
+	// watchdog: the loop must keep moving
+	last, lastAt := int64(-1), time.Now()
+	for running := true; running; {
+		select {
+		case <-finished:
+			running = false
+		case <-time.After(100 * time.Millisecond):
+			if p := atomic.LoadInt64(&progress); p != last {
+				last, lastAt = p, time.Now()
+			} else if time.Since(lastAt) > 3*time.Second {
+				// no stream fails in this workload (no context ends during a write, no server stops), so nothing
+				// here can legitimately run into the connection wedges of C09: a stall is a violation whatever its shape
+				w := diagnose()
+				sum.mismatch(Mismatch{Property: "C06", Case: fmt.Sprintf("cancel-after-return call %d of %d", last, n), Expected: "a send-waiting one-way call to healthy nodes returns without waiting",
+					Observed: "still running after 3 s (goroutine signature: " + w.id + ")", Detail: strings.Join(signatures(w.dump), "; ")})
+				return int(last)
+			}
+		}
+	}
+	// every message was delivered exactly once at every node it was sent to
+	complete := func() bool {
+		mu.Lock()
+		defer mu.Unlock()
+		for _, s := range all {
+			for _, nid := range s.nodes {
+				if got[fmt.Sprint(nid, "/", s.tok)] < 1 {
+					return false
+				}
+			}
+		}
+		return true
+	}
+	waitFor(3*time.Second, complete)
+	mu.Lock()
+	defer mu.Unlock()
+	missing, dup := 0, 0
+	first := ""
+	for _, s := range all {
+		for _, nid := range s.nodes {
+			k := got[fmt.Sprint(nid, "/", s.tok)]
+			if k == 0 {
+				missing++
+				if first == "" {
+					first = fmt.Sprintf("message %s never reached node %d", s.tok, nid)
+				}
+			}
+			if k > 1 {
+				dup++
+			}
+		}
+	}
+	if missing > 0 || dup > 0 {
+		sum.mismatch(Mismatch{Property: "C06", Case: fmt.Sprintf("cancel-after-return: %d send-waiting one-way calls, each context cancelled right after the call returned", n),
+			Expected: "every message is delivered exactly once at every targeted (healthy) node", Observed: fmt.Sprintf("%d deliveries missing, %d duplicated; %s", missing, dup, first)})
+	}
+	sum.count("cancel-after-return-calls")
+	return len(all)
 }
 
 func runOW(sh *shard, c *owCase, expLine string, sum *sumT) {
